@@ -1090,7 +1090,7 @@ func (c *Ctx) RuleSanitize() *Result {
 					continue
 				}
 				for _, o := range d.Succs {
-					if reachS[o] || o == S || !c.reachesNormalReturn(o) {
+					if reachS[o] || o == S || !c.reachesSuccessReturn(o) {
 						continue
 					}
 					cond, _ := unwrapNot(iff.Cond)
@@ -1209,4 +1209,31 @@ func passValue(call *ssa.Call) ssa.Value {
 func isStringType(t types.Type) bool {
 	b, ok := t.Underlying().(*types.Basic)
 	return ok && b.Info()&types.IsString != 0
+}
+
+// reachesSuccessReturn: from b a Return can be reached, without passing a loud exit, that does not
+// report a failure (its error result, if the function has one, is not known to be non-nil).
+func (c *Ctx) reachesSuccessReturn(b *ssa.BasicBlock) bool {
+	lm := c.Loud()
+	seen := map[*ssa.BasicBlock]bool{}
+	stack := []*ssa.BasicBlock{b}
+	for len(stack) > 0 {
+		x := stack[len(stack)-1]
+		stack = stack[:len(stack)-1]
+		if seen[x] {
+			continue
+		}
+		seen[x] = true
+		if lm.BlockDies(x) {
+			continue
+		}
+		if r, ok := x.Instrs[len(x.Instrs)-1].(*ssa.Return); ok {
+			if op := retErrOperand(r); op != nil && (errOperandAlwaysNonNil(op) || domFacts(x)[op] == nonNil || c.factsNonNil(x, op)) {
+				continue
+			}
+			return true
+		}
+		stack = append(stack, x.Succs...)
+	}
+	return false
 }
